@@ -388,8 +388,14 @@ func runC15(t *testing.T, tape *verifsim.Tape, prop, tier string, keepLog bool) 
 		}
 		w.teardown()
 	})
-	// (a) data races reported during this run
-	res.Violations = append(res.Violations, verifsim.RaceViolations("C15")...)
+	// (a) data races reported during this run. The determinism self-test compares
+	// schedules and outcomes; the detector's view is an observer of the execution, not part
+	// of it (see c15ConfirmRaces), so it is left out there.
+	rv := verifsim.RaceViolations("C15")
+	if os.Getenv("VERIF_SELFTEST") == "" {
+		res.Violations = append(res.Violations, rv...)
+		res.Info["race_reports_kept"] += len(rv)
+	}
 	return res
 }
 
@@ -428,6 +434,48 @@ func getenvOr(k string) string {
 	return "unset"
 }
 
+var c15Warm bool
+
+// c15ConfirmRaces: whether the detector sees a given pair of accesses as unordered can
+// hinge on happens-before edges that are not part of the schedule (lazily filled caches
+// of the standard library, detector history). A race report with a signature that is not
+// a known finding is therefore kept only if two immediate re-executions of the recorded
+// tape report it again; what does not reproduce is counted and dropped (inconclusive),
+// so the worker's confirmation and minimisation work on stable reports only.
+func c15ConfirmRaces(t *testing.T, r verifsim.Result, prop, tier string) verifsim.Result {
+	unknown := map[string]bool{}
+	for _, v := range r.Violations {
+		if v.Class == "race" && !apiKnown[v.Property+"\x00"+v.Signature] {
+			unknown[v.Signature] = true
+		}
+	}
+	if len(unknown) == 0 {
+		return r
+	}
+	for k := 0; k < 2 && len(unknown) > 0; k++ {
+		r2 := runC15(t, verifsim.ReplayTape(r.Tape), prop, tier, false)
+		seen := map[string]bool{}
+		for _, v := range r2.Violations {
+			seen[v.Signature] = true
+		}
+		for s := range unknown {
+			if !seen[s] {
+				delete(unknown, s)
+			}
+		}
+	}
+	var keep []verifsim.Violation
+	for _, v := range r.Violations {
+		if v.Class == "race" && !apiKnown[v.Property+"\x00"+v.Signature] && !unknown[v.Signature] {
+			r.Info["race_reports_not_reproduced"]++
+			continue
+		}
+		keep = append(keep, v)
+	}
+	r.Violations = keep
+	return r
+}
+
 func TestVerifAPIRace(t *testing.T) {
 	verifQuietLogs()
 	if ok, why := verifsim.RaceLogConfigured(); !ok && verifsim.RaceBuild {
@@ -436,7 +484,41 @@ func TestVerifAPIRace(t *testing.T) {
 	verifsim.WorkerMain(t, verifsim.Harness{
 		Name: "apirace",
 		RunOne: func(t *testing.T, tape *verifsim.Tape, prop, tier string, keepLog bool) verifsim.Result {
-			return orderKnownLast(runC15(t, tape, prop, tier, keepLog), prop)
+			// The first execution in a process synchronises more than later ones: one-time
+			// initialisations (type and template caches, sync.Once) publish with release
+			// stores that later executions only read. A replay in a fresh process must see
+			// what a worker that has been running for a while saw, so it warms up first by
+			// executing the same tape once without looking at the result.
+			if verifsim.RaceBuild && !c15Warm && tape.Replaying() {
+				c15Warm = true
+				runC15(t, verifsim.ReplayTape(tape.Vals), prop, tier, false)
+			}
+			c15Warm = true
+			if os.Getenv("VERIF_DEBUG_NOKEEP") != "" {
+				keepLog = false
+			}
+			if n, _ := strconv.Atoi(os.Getenv("VERIF_DEBUG_REPEAT")); n > 0 && tape.Replaying() {
+				for i := 0; i < n; i++ {
+					rr := orderKnownLast(runC15(t, verifsim.ReplayTape(tape.Vals), prop, tier, i%2 == 1), prop)
+					first := "<none>"
+					if len(rr.Violations) > 0 {
+						first = rr.Violations[0].Signature
+					}
+					fmt.Fprintf(os.Stderr, "debug: repeat %d keeplog=%v hash=%x n=%d first=%s\n", i, i%2 == 1, rr.SchedHash, len(rr.Violations), first)
+				}
+			}
+			r := orderKnownLast(runC15(t, tape, prop, tier, keepLog), prop)
+			if !tape.Replaying() && !r.TapeOver {
+				r = c15ConfirmRaces(t, r, prop, tier)
+			}
+			if os.Getenv("VERIF_DEBUG_SIGS") != "" {
+				var sigs []string
+				for _, v := range r.Violations {
+					sigs = append(sigs, v.Signature)
+				}
+				fmt.Fprintf(os.Stderr, "debug: keeplog=%v replay=%v tape=%d steps=%d hash=%x violations=%v racelog=%+v\n", keepLog, tape.Replaying(), r.TapeUsed, r.Steps, r.SchedHash, sigs, verifsim.RaceLogStats)
+			}
+			return r
 		},
 		PanicProps: []string{"C15"},
 		Real: []string{"server/routes.go (whole router: GenerateRoutes and every handler driven), sched.go, create.go, images.go, layer.go, manifest.go, model.go, modelpath.go, prompt.go, download.go, upload.go (instrumented, unmodified logic)",
